@@ -110,8 +110,8 @@ def _calc_crowding_distance(population: list[FrozenTrial]) -> defaultdict[int, f
 
 def _crowding_distance_sort(population: list[FrozenTrial]) -> None:
     manhattan_distances = _calc_crowding_distance(population)
-    population.sort(key=lambda x: manhattan_distances[x.number])
-    population.reverse()
+    # Break ties by the trial number so that the order does not depend on the direction of the objectives.
+    population.sort(key=lambda x: (-manhattan_distances[x.number], x.number))
 
 
 def _rank_population(
